@@ -69,8 +69,8 @@ func init() {
 		Explanation: "Decides structural necessary conditions of 'compressed tables decode to the same actions': GUARD(usedBase): every freshly chosen displacement base in allocator.place reaches a return only through the not-used outcome of usedBase.Get(delta+base), and the base is recorded (two rows with one base decode each other's cells). " +
 			"GUARD(dedupe): a cached base is reused only when the bounds check held and value+check column were compared. CODEC(optimize): every value stored into a row is error(-1), shift(-2-state), a rule index or the unfilled sentinel; under defaultReduce the sentinel is -K-len(Action), K>=2 (distinct from every shift code, the nonassoc error and rule indices), and only cells equal to the sentinel receive the default reduction. " +
 			"MUSTPASS(compile-order): populateTables < resolveWithLookahead < reportConflicts < minimize < Optimize. GUARD(optimize-la): Optimize is not run on tables holding deep-lookahead pointers. RESET(histogram): a counter slice reused across states (Optimize's reuse, pickDefault's parameter) is zeroed inside the iteration before it is bumped and read back. LOOPBOUND: no element-by-element scan in lalr/ or util/container (the bit sets the row packer searches) stops short of its slice. OPTIONMAP: each option key of the grammar file sets its own Options field (defaultReduce and optimizeTables are switched on only by their own keys). " +
-			"Not decided: full functional equality of the two encodings, pickDefault's choice.",
-		Rules: []string{"GUARD(usedBase)", "GUARD(dedupe)", "CODEC(optimize)", "MUSTPASS(compile-order)", "GUARD(optimize-la)", "OPTIONMAP", "LOOPBOUND", "RESET(histogram)"},
+			"Not decided: full functional equality of the two encodings, pickDefault's choice. AGREE(option-plumbing): every field of the lalr.Options literal in compileParser that is filled from grammar.Options/compiler.Params is filled from the field of the same name (defaultReduce is not switched on by a neighbouring option). CODEC(default-fallback): every decode site of the displacement encoding in the generated Go parsers reads the row default (tmDefAct/tmDefGoto) on the failing edge of the tmCheck owner test.",
+		Rules: []string{"GUARD(usedBase)", "GUARD(dedupe)", "CODEC(optimize)", "MUSTPASS(compile-order)", "GUARD(optimize-la)", "OPTIONMAP", "LOOPBOUND", "RESET(histogram)", "AGREE(option-plumbing)", "CODEC(default-fallback)"},
 		Run: func(c *Ctx) {
 			ruleUSEDBASE(c)
 			ruleDEDUPE(c)
@@ -79,13 +79,15 @@ func init() {
 			ruleOPTIONMAP(c)
 			ruleLOOPBOUND(c, "util/container", "lalr")
 			ruleRESET(c, "lalr")
+			ruleOPTPLUMBING(c)
+			ruleDEFAULTFALLBACK(c)
 		},
 	})
 	register(&Property{
 		ID: "C06",
 		Explanation: "Decides structural necessary conditions of behaviour-preserving minimization: GUARD(entry): minimize consults Grammar.Inputs so that entry states (referenced by index from generated Parse*/lookahead functions) stay apart. GUARD(final): the initial partition consults Tables.FinalStates (reaching `end` stops the parse, which no action signature records). FIELDCOV(minimize): the rule-class key is built from LHS, RuleLen (as popped by the parser), action, node type and flags; every Tables field that holds or is indexed by state numbers is rewritten on the merge path; new Tables fields must be classified; the refinement signature contains own partition, edge symbol and target partition. " +
-			"MUSTPASS(compile-order): minimize runs after conflict resolution and before Optimize. KEYCOPY: the interning containers that partition states by signature store a copy of the signature, never the caller's (reusable) slice. AGREE(memo-key): generated code identifies a lookahead by its entry state (kept apart), never by its final state (merged with other final states). SIGNATURE(lalr-cell): each element of a lookahead state's initial signature is the Lalr cell itself or ruleClass[cell], never a constant standing for a class of cells. LOCKSTEP(rule-copy): the action id that keeps rules with different default-cast behaviour apart is stored into the lalr copy of the rule (the one minimize keys on) whenever it is stored into the grammar copy (the one applyRule is generated from). Not decided: that Moore refinement yields a behaviourally equivalent automaton on all inputs. ACCESSOR(len): IntSliceSet.Len(), the convergence measure of the refinement loop, returns the counter Insert advances per new element. GUARD(final) also requires the protected set to hold the elements of Tables.FinalStates. SIGNATURE(lalr-cell) also requires every (terminal, action) pair of a row to be appended. KEYCOV(cast-action): the key under which generateTables shares default-cast action ids contains both types whose difference requires the cast, so reduce states that cast differently are never merged. The rule-class key also holds the trailing-nullable shape of the rule (F43).",
-		Rules: []string{"GUARD(entry)", "GUARD(final)", "FIELDCOV(minimize)", "MUSTPASS(compile-order)", "KEYCOPY", "LOCKSTEP(rule-copy)", "SIGNATURE(lalr-cell)", "AGREE(memo-key)", "GUARD(optimize-la)", "ACCESSOR(len)", "KEYCOV(cast-action)"},
+			"MUSTPASS(compile-order): minimize runs after conflict resolution and before Optimize. KEYCOPY: the interning containers that partition states by signature store a copy of the signature, never the caller's (reusable) slice. AGREE(memo-key): generated code identifies a lookahead by its entry state (kept apart), never by its final state (merged with other final states). SIGNATURE(lalr-cell): each element of a lookahead state's initial signature is the Lalr cell itself or ruleClass[cell], never a constant standing for a class of cells. LOCKSTEP(rule-copy): the action id that keeps rules with different default-cast behaviour apart is stored into the lalr copy of the rule (the one minimize keys on) whenever it is stored into the grammar copy (the one applyRule is generated from). Not decided: that Moore refinement yields a behaviourally equivalent automaton on all inputs. ACCESSOR(len): IntSliceSet.Len(), the convergence measure of the refinement loop, returns the counter Insert advances per new element. GUARD(final) also requires the protected set to hold the elements of Tables.FinalStates. SIGNATURE(lalr-cell) also requires every (terminal, action) pair of a row to be appended. KEYCOV(cast-action): the key under which generateTables shares default-cast action ids contains both types whose difference requires the cast, so reduce states that cast differently are never merged. The rule-class key also holds the trailing-nullable shape of the rule (F43). DEDUP(marker-states): the state lists of markers are rebuilt as sets under the renumbering.",
+		Rules: []string{"GUARD(entry)", "GUARD(final)", "FIELDCOV(minimize)", "MUSTPASS(compile-order)", "KEYCOPY", "LOCKSTEP(rule-copy)", "SIGNATURE(lalr-cell)", "AGREE(memo-key)", "GUARD(optimize-la)", "ACCESSOR(len)", "KEYCOV(cast-action)", "DEDUP(marker-states)"},
 		Run: func(c *Ctx) {
 			ruleENTRYGUARD(c)
 			ruleFINALGUARD(c)
@@ -98,6 +100,7 @@ func init() {
 			ruleSIGCELL(c)
 			ruleMEMOKEY(c)
 			ruleCASTKEY(c)
+			ruleMARKERDEDUP(c)
 		},
 	})
 }
@@ -162,8 +165,8 @@ func init() {
 		ID: "C09",
 		Explanation: "Decides structural necessary conditions of longest-match-with-priority tables: DTX(accept-priority): in a DFA state the accepted rule is replaced only by a rule of strictly higher precedence, equal precedence with a different action is an error. FIELDCOV(checkpoint): backtracking checkpoints are shared only between transitions with the same target state and the same accepted action, and carry that action. " +
 			"CODEC(lexdfa): the writer's three cell classes (state, checkpoint k = -1-k, accept = -1-action shifted below the checkpoints) are produced under the right tests; Tables.Scan reads Backtrack[-1-cell] only for actionStart < cell < 0, computes actionStart-cell only for cell <= actionStart (also on the end-of-input transition), and prefers a recorded checkpoint over the invalid action. " +
-			"Not decided: subset construction, epsilon closure, symbol-class compression. PAIR(checkpoint): recording a backtracking checkpoint records both the accepted action and the offset (Tables.Scan and the generated lexers). GUARD(empty-accept): addPattern reports `accepts empty text` both for accepting instructions linked from a pattern's first instruction and for an accepting first instruction itself (patterns that compile to no instruction: (), a{0}). INPLACE(write-behind-read): the in-place link filter of reCompiler.compile never writes ahead of its read cursor. GUARD(full-match): callers that use Tables.Scan to classify a whole constant (compiler.resolveClasses) compare the matched size with len(text) before trusting the action. LOOPSHAPE(fold-orbit) as in C10 (case folding visits the whole orbit, also in bytes mode). LOSTWRITE(range-copy): stores into fields of range copies in lex and compiler are observable (the token id of a backtracking checkpoint is written to Backtrack[i], not to a copy).",
-		Rules: []string{"DTX(accept-priority)", "FIELDCOV(checkpoint)", "CODEC(lexdfa)", "PAIR(checkpoint)", "GUARD(empty-accept)", "INPLACE(write-behind-read)", "GUARD(full-match)", "LOOPSHAPE(fold-orbit)", "LOSTWRITE(range-copy)"},
+			"Not decided: subset construction, epsilon closure, symbol-class compression. PAIR(checkpoint): recording a backtracking checkpoint records both the accepted action and the offset (Tables.Scan and the generated lexers). GUARD(empty-accept): addPattern reports `accepts empty text` both for accepting instructions linked from a pattern's first instruction and for an accepting first instruction itself (patterns that compile to no instruction: (), a{0}). INPLACE(write-behind-read): the in-place link filter of reCompiler.compile never writes ahead of its read cursor. GUARD(full-match): callers that use Tables.Scan to classify a whole constant (compiler.resolveClasses) compare the matched size with len(text) before trusting the action. LOOPSHAPE(fold-orbit) as in C10 (case folding visits the whole orbit, also in bytes mode). LOSTWRITE(range-copy): stores into fields of range copies in lex and compiler are observable (the token id of a backtracking checkpoint is written to Backtrack[i], not to a copy). CONSTAGREE(reserved-tokens) as in C11.",
+		Rules: []string{"DTX(accept-priority)", "FIELDCOV(checkpoint)", "CODEC(lexdfa)", "PAIR(checkpoint)", "GUARD(empty-accept)", "INPLACE(write-behind-read)", "GUARD(full-match)", "LOOPSHAPE(fold-orbit)", "LOSTWRITE(range-copy)", "CONSTAGREE(reserved-tokens)"},
 		Run: func(c *Ctx) {
 			ruleACCEPTPRIO(c)
 			ruleCHECKPOINTKEY(c)
@@ -173,6 +176,7 @@ func init() {
 			ruleINPLACE(c, "lex")
 			ruleFULLMATCH(c, "compiler", "gen", "grammar")
 			ruleFOLDORBIT(c)
+			ruleRESERVEDTOKENS(c)
 			ruleLOSTWRITE(c, "lex", "compiler")
 		},
 	})
@@ -222,8 +226,8 @@ func init() {
 		ID: "C11",
 		Explanation: "Decides structural necessary conditions of 'generated Go lexers tokenize as specified': AGREE(hash): the keyword hash computed by the generator (gen.stringHash) uses the multiplier and the scan unit (rune in rune mode, byte in bytes mode) of the hash the generated lexer accumulates. LINECOL/CURSOR/PROGRESS as in C12 (positions, line and column of each token). FIELDCOV(checkpoint) + CODEC(lexdfa) writer side as in C09 (the tables the lexer is generated from). " +
 			"RESET(checkpoint): the checkpoint does not survive a restart. CODEC(runemap): generated mapRune and lex.CompressedMap agree that entries cover [lo, hi). " +
-			"Not decided: token sequences as such; byte-mode and large-Unicode-map template branches are not instantiated by any shipped lexer. PAIR(checkpoint): backupRule, backupOffset and backupHash are recorded together.",
-		Rules: []string{"AGREE(hash)", "LINECOL", "CURSOR", "PROGRESS", "FIELDCOV(checkpoint)", "CODEC(lexdfa)", "PAIR(checkpoint)", "CODEC(runemap)", "RESET(checkpoint)"},
+			"Not decided: token sequences as such; byte-mode and large-Unicode-map template branches are not instantiated by any shipped lexer. PAIR(checkpoint): backupRule, backupOffset and backupHash are recorded together. CONSTAGREE(reserved-tokens): canInlineRules skips as many reserved RuleToken entries as the token floor below which a rule prevents inlining (an explicit invalid_token rule is never inlined, so its match is not mistaken for \"nothing matched\"). LINECOL also rejects a line start computed from source[:l.offset] when l.offset is assigned afterwards (rewind).",
+		Rules: []string{"AGREE(hash)", "LINECOL", "CURSOR", "PROGRESS", "FIELDCOV(checkpoint)", "CODEC(lexdfa)", "PAIR(checkpoint)", "CODEC(runemap)", "RESET(checkpoint)", "CONSTAGREE(reserved-tokens)"},
 		Run: func(c *Ctx) {
 			ruleRUNEMAP(c)
 			ruleCKRESET(c)
@@ -234,6 +238,7 @@ func init() {
 			ruleCHECKPOINTKEY(c)
 			ruleLEXCODEC(c)
 			ruleCHECKPOINTPAIR(c)
+			ruleRESERVEDTOKENS(c)
 		},
 	})
 }
@@ -416,8 +421,8 @@ func init() {
 	register(&Property{
 		ID: "C17",
 		Explanation: "Decides structural necessary conditions of 'generation completes and the generated Go code builds' on the template trees (parsed with text/template/parse, never executed, so option branches no shipped grammar instantiates are covered): TMPLGUARD: in parser.go/parser_tables.go/stream.go templates, node-type identifiers (NodeType/NodeFlags via nodeTypeRef…, node_id) appear only under guards implying .Parser.Types. TMPL(threshold): a numeric threshold tested by two Go templates is tested identically (helper emitted iff called). " +
-			"TMPLNAMES: every {{template}} resolves and every pipeline function is registered. ERRGUARD: a return taken because error E is non-nil returns E (gen.Generate and the compiler packages). Not decided: the option x feature space as a whole; Go type-correctness of un-instantiated branches. PAIR(intern): the idx, ok := m[k]; if !ok { idx = len(list); append } idiom records idx under k (no duplicate node types, which would be redeclared constants in listener.go). AGREE(session): (*Grammar).NeedsSession, evaluated for every assignment of the options that guard members of the template's session struct, is true exactly when lookaheads exist and a member exists (a use site never names a member that parse() declared as a local). AGREE(file-deps): on every path of gen.(*language).templates (all option combinations) each generated package that a selected group of Go files imports ({{pkg \"selector\"}}, token) is written by a selected group. AGREE(call-arity): every call of a TokenStream method whose first parameter exists only under an option guard (next: ctx under Cancellable and CancellableFetch) adds the argument under the same guard (template-tree sibling check: the text `.next(` is followed by the matching {{if}}). TMPL(def-use): for every helper function defined in go_parser.go.tmpl, the guard formula of each call site (and/or/not over the atomic template conditions, single-assignment template variables substituted, customisation switches taken as enabled) implies the guard formula of a definition, checked for every truth assignment. PAIR(seen-set): every once-only guard `if !seen[k]` records k in its branch. GUARD(inline-unique): canInlineRules refuses to inline when two lexer rules share a token. GUARD(synthetic-name-free): the synthetic category TokenSet is added only when that name is free among the declared categories and among the node types (both become declarations of the generated package).",
-		Rules: []string{"TMPLGUARD", "TMPL(threshold)", "TMPLNAMES", "ERRGUARD", "PAIR(intern)", "AGREE(session)", "AGREE(file-deps)", "AGREE(call-arity)", "TMPL(def-use)", "PAIR(seen-set)", "GUARD(inline-unique)", "GUARD(synthetic-name-free)"},
+			"TMPLNAMES: every {{template}} resolves and every pipeline function is registered. ERRGUARD: a return taken because error E is non-nil returns E (gen.Generate and the compiler packages). Not decided: the option x feature space as a whole; Go type-correctness of un-instantiated branches. PAIR(intern): the idx, ok := m[k]; if !ok { idx = len(list); append } idiom records idx under k (no duplicate node types, which would be redeclared constants in listener.go). AGREE(session): (*Grammar).NeedsSession, evaluated for every assignment of the options that guard members of the template's session struct, is true exactly when lookaheads exist and a member exists (a use site never names a member that parse() declared as a local). AGREE(file-deps): on every path of gen.(*language).templates (all option combinations) each generated package that a selected group of Go files imports ({{pkg \"selector\"}}, token) is written by a selected group. AGREE(call-arity): every call of a TokenStream method whose first parameter exists only under an option guard (next: ctx under Cancellable and CancellableFetch) adds the argument under the same guard (template-tree sibling check: the text `.next(` is followed by the matching {{if}}). TMPL(def-use): for every helper function defined in go_parser.go.tmpl, the guard formula of each call site (and/or/not over the atomic template conditions, single-assignment template variables substituted, customisation switches taken as enabled) implies the guard formula of a definition, checked for every truth assignment. PAIR(seen-set): every once-only guard `if !seen[k]` records k in its branch. GUARD(inline-unique): canInlineRules refuses to inline when two lexer rules share a token. GUARD(synthetic-name-free): the synthetic category TokenSet is added only when that name is free among the declared categories and among the node types (both become declarations of the generated package). ONCE(go-decl): every emission of a Go short variable declaration inside goParserAction's reference loop is guarded by a failed seen-set lookup whose key is recorded in the same block (an action that mentions a symbol twice still builds). DEDUP(marker-states): minimize de-duplicates the remapped state list of a marker against a seen-set (the renumbering is not monotone; a repeated state is a duplicate key in the generated marker map).",
+		Rules: []string{"TMPLGUARD", "TMPL(threshold)", "TMPLNAMES", "ERRGUARD", "PAIR(intern)", "AGREE(session)", "AGREE(file-deps)", "AGREE(call-arity)", "TMPL(def-use)", "PAIR(seen-set)", "GUARD(inline-unique)", "GUARD(synthetic-name-free)", "ONCE(go-decl)", "DEDUP(marker-states)"},
 		Run: func(c *Ctx) {
 			ruleINTERN(c, "syntax", "compiler", "grammar", "gen", "lalr", "lex")
 			ruleSESSION(c)
@@ -427,6 +432,8 @@ func init() {
 			ruleSEENSET(c, "gen", "compiler", "grammar", "syntax")
 			ruleINLINEUNIQUE(c)
 			ruleSYNTHNAME(c)
+			ruleDECLONCE(c)
+			ruleMARKERDEDUP(c)
 			ruleTMPLGUARD(c)
 			ruleTMPLTHRESHOLD(c)
 			ruleTMPLNAMES(c)
